@@ -440,6 +440,7 @@ impl ReadXml for Reply {
                                 error_count = Some(
                                     reader
                                         .read_text(tag.to_end().name())?
+                                        .trim()
                                         .parse::<usize>()
                                         .map_err(|err| ReadError::Other(err.into()))?,
                                 );
